@@ -12,7 +12,7 @@ import (
 const geojsonPath = "github.com/tidwall/geojson"
 
 func init() {
-	register(&Rule{ID: "R19.delta", Props: []string{"C19", "C14", "C02", "C01", "C12"}, Floor: 12,
+	register(&Rule{ID: "R19.delta", Props: []string{"C19", "C14", "C02", "C01", "C12", "C13"}, Floor: 12,
 		Text: "effect tables of the bookkeeping in internal/collection: setFill(prev, obj) and Delete are evaluated abstractly in every situation of the two objects (every assignment of truth values to the conditions the code tests on them: nil, spatial, empty geometry, deadline), helpers inlined; per counter the effect is a linear form over symbolic measures (also when a net delta is accumulated in a local), per index the ordered operations. In every situation: what setFill does for the new object is independent of the previous one and vice versa; setFill's effect for the previous object equals Delete's; it is the exact inverse of the insertion of an object in the same situation; in an index the previous object is removed before the new one is entered; every secondary field of Collection is maintained",
 		Run:  ruleDelta})
 	register(&Rule{ID: "R19.who-writes", Props: []string{"C19"}, Floor: 8,
@@ -424,6 +424,62 @@ func ruleExactFilter(c *Ctx) {
 				}
 				c.check(okk, key, cl.Node.Pos(), "the iterator call is dominated by the true edge of "+name+"(query)", "the user iterator is reachable without the exact "+name+" predicate on the query object having held: index candidates are returned unfiltered")
 			}
+			// the converse: an item that was counted (the cursor was stepped for it) and satisfies the exact
+			// predicate reaches the user iterator — no other condition may divert it
+			if len(calls) > 0 {
+				key := fmt.Sprintf("%s/branch%d/complete", name, nl)
+				steps := fg.FindCalls(func(f *types.Func, call *ast.CallExpr) bool {
+					if f == nil {
+						return false
+					}
+					for _, a := range call.Args {
+						if t := info.TypeOf(a); t != nil && isNamedType(t, colPath, "Cursor") {
+							return true
+						}
+					}
+					return false
+				})
+				if len(steps) == 0 {
+					c.und(key, lit.Pos(), "the per-item cursor step was not found in this callback, so the paths of a counted item cannot be enumerated")
+				} else {
+					isPred := func(e ast.Expr) bool {
+						cc, ok := ast.Unparen(e).(*ast.CallExpr)
+						if !ok || len(cc.Args) != 1 {
+							return false
+						}
+						g := callee(info, cc)
+						if g == nil || g.Name() != name || !isGeoBinary(g) {
+							return false
+						}
+						a, ok := ast.Unparen(cc.Args[0]).(*ast.Ident)
+						return ok && info.ObjectOf(a) == qObj
+					}
+					isIterCall := func(n ast.Node) bool {
+						hit := false
+						inspectNoLit(n, func(m ast.Node) bool {
+							if call, ok := m.(*ast.CallExpr); ok {
+								if id, ok := ast.Unparen(call.Fun).(*ast.Ident); ok && info.ObjectOf(id) == iterObj {
+									hit = true
+								}
+							}
+							return true
+						})
+						return hit
+					}
+					lost, wit := fg.Reach(PathQuery{From: steps[0], Correlate: true,
+						Atom: func(e ast.Expr) byte {
+							if isPred(e) {
+								return '1'
+							}
+							return '?'
+						},
+						Target: func(l Loc) bool { return isReturn(l.Node) },
+						Avoid:  func(l Loc) bool { return isIterCall(l.Node) }})
+					c.checkPath(!lost, key, lit.Pos(), wit,
+						"after the cursor step, every path on which "+name+"(query) holds reaches the user iterator",
+						"an item that was counted and satisfies the exact "+name+" predicate can leave the callback without reaching the user iterator (another condition stands between the cursor step and the iterator): the search loses objects that TEST confirms")
+				}
+			}
 			return true
 		})
 		if nl < 2 {
@@ -436,7 +492,7 @@ func ruleExactFilter(c *Ctx) {
 			if !ok {
 				return true
 			}
-			if g := callee(info, call); g != nil && g.Name() == "geoSearch" && len(call.Args) >= 1 {
+			if g := callee(info, call); g != nil && isIndexSearchFunc(c, g, 0) && len(call.Args) >= 1 {
 				arg := call.Args[0]
 				if id, ok := ast.Unparen(arg).(*ast.Ident); ok {
 					arg = resolveLocal(info, fn.Decl.Body, id) // bounds := q.Rect(); geoSearch(bounds, …)
@@ -1109,4 +1165,37 @@ func ruleRemoveRevisits(c *Ctx) {
 		}
 	}
 	c.stat("in_loop_removals", n)
+}
+
+// isIndexSearchFunc: a function of the collection package that searches the spatial index with its first
+// parameter: it hands that parameter to the quantiser (rtreeRect), or to another such function.
+func isIndexSearchFunc(c *Ctx, g *types.Func, depth int) bool {
+	fi := c.FuncOf(g)
+	if fi == nil || fi.Decl.Body == nil || depth > 2 {
+		return false
+	}
+	sig := g.Type().(*types.Signature)
+	if sig.Params().Len() == 0 {
+		return false
+	}
+	p0 := sig.Params().At(0)
+	info := fi.Info()
+	hit := false
+	ast.Inspect(fi.Decl.Body, func(n ast.Node) bool {
+		call, ok := n.(*ast.CallExpr)
+		if !ok || len(call.Args) == 0 {
+			return true
+		}
+		id, ok := ast.Unparen(call.Args[0]).(*ast.Ident)
+		if !ok || info.ObjectOf(id) != p0 {
+			return true
+		}
+		if f := callee(info, call); f != nil && f != g {
+			if f.Name() == "rtreeRect" || isIndexSearchFunc(c, f, depth+1) {
+				hit = true
+			}
+		}
+		return true
+	})
+	return hit
 }
